@@ -58,6 +58,54 @@ CLAIMED = {
         "CLIENT_HANDSHAKE_START row is judged differentially (any input there behaves like the documented b'').",
         "DESIGN.md 7 C11",
     ),
+    "C09": (
+        "exploration",
+        "deterministic simulation with fault injection: seeded close()/fatal-frame/peer-crash/blackout/stall/late-timer "
+        "schedules in virtual time, timer and termination oracles after every API call",
+        "C01 scripts extended with close() at arbitrary points, forged fatal frames, peer crash, stalls and late "
+        "timers; get_timer() must be finite after every call while the connection is live; after closing starts exactly "
+        "one ConnectionTerminated arrives within 3 PTO (PTO read from the recovery object at that instant) plus injected "
+        "lateness, no datagram follows the closing packets, nothing is emitted after termination although datagrams "
+        "keep arriving, and a silent peer leads to idle termination.",
+        "Trusted: harness. Closing start is observed white-box (connection state after each kernel step).",
+        "DESIGN.md 7 C09",
+    ),
+    "C20": (
+        "exploration",
+        "deterministic simulation: every seeded scenario (benign, lossy, hostile) executed twice from the same choice "
+        "log with logging off and on; byte-exact comparison of the two event logs plus qlog document checks",
+        "Relies on byte-exact determinism of the simulation: the same choice log is executed with "
+        "quic_logger/secrets_log off and on; the complete event logs (API results, events, every datagram byte, final "
+        "state) must be identical, logging must not raise, the qlog must serialise and hold one packet_sent record per "
+        "packet counted on the wire.",
+        "Trusted: determinism seams (self-test). In the hostile scenario the secrets log is on in both runs (the "
+        "forger needs keys); H3 hostile scenarios are paired inside the C16 check.",
+        "DESIGN.md 7 C20",
+    ),
+    "C14": (
+        "exploration",
+        "deterministic simulation of delivery schedules: seeded splittings and cross-stream interleavings of the "
+        "byte streams produced by a real sending H3Connection, exhaustive splittings for short streams",
+        "A real sending H3Connection produces per-stream bytes for seeded sessions (requests, responses, trailers, "
+        "pushes, WebTransport, QPACK static/dynamic/literal entries, blocked streams); a fresh real receiver is fed "
+        "those bytes under seeded splittings and interleavings (all 2^(n-1) splittings for short streams); normalised "
+        "per-stream events must equal the canonical delivery and what was submitted to the sending API.",
+        "Trusted: pylsqpack, the FakeQuic recording stub. Streams truncated by FIN (malformed input) are a separate "
+        "class with its own oracle id; its chunk dependence is a recorded known finding.",
+        "DESIGN.md 7 C14",
+    ),
+    "C16": (
+        "exploration",
+        "deterministic simulation with fault injection at the stream-byte level: a grammar of hostile HTTP/3, QPACK, "
+        "WebTransport and HTTP/0.9 bytes after valid prefixes, delivered in seeded chunking to real H3/H0 layers over "
+        "a real QuicConnection pair",
+        "Hostile stream bytes and datagrams (every frame type x length x payload shape, settings, duplicate critical "
+        "streams, malformed QPACK, oversized names) are fed after a valid prefix in seeded chunking and order; "
+        "handle_event must return, and the real transport underneath must still emit its closing packet and reach "
+        "termination; every case runs with and without QuicLogger.",
+        "Trusted: pylsqpack. Hostile bytes are delivered as transport events, not through a lossy wire.",
+        "DESIGN.md 7 C16",
+    ),
     "C19": (
         "exploration",
         "deterministic simulation: virtual-time asyncio event loop (BaseEventLoop subclass) with an in-memory lossy "
